@@ -5,13 +5,13 @@ package main
 // time, bytes allocated) and its outcome compared with the model's.
 
 import (
-	"os/exec"
-	"io"
 	"bufio"
 	"bytes"
 	"encoding/binary"
 	"fmt"
+	"io"
 	"os"
+	"os/exec"
 	"runtime"
 	"runtime/debug"
 	"strings"
@@ -212,7 +212,7 @@ func init() {
 			defer wd.Stop()
 			c.res.count(kind+":"+s.fmt, string(data), true)
 			budgetT := 50*time.Millisecond + time.Duration(len(data))*2*time.Microsecond
-			budgetA := uint64(2048*len(data) + 1<<20)
+			budgetA := 2048*uint64(len(data)) + 1<<20
 			check := func(entry string, o callObs) {
 				if o.status == "panic" {
 					c.res.fail(Failure{Class: "C09:panic:" + entry, Desc: "a panic escaped from " + entry + " (" + what + ")", Input: in, Got: "panic", Want: "value or error"})
@@ -528,6 +528,9 @@ func hostile386Main() {
 }
 
 func checkPlatform386(c *ctx) {
+	if os.Getenv("VERIF_PLATFORM") != "" {
+		return
+	}
 	bin386 := os.Getenv("VERIF_ROOT") + "/build/bin/vharness386"
 	if _, err := os.Stat(bin386); err != nil {
 		c.res.Notes = append(c.res.Notes, "no GOARCH=386 build of the harness: 32-bit platform run of the hostile profiles skipped")
